@@ -47,6 +47,9 @@ POOLS = {
                '_n0', '_o'],
     'nonascii': ['café', 'naïve', 'über', 'señor', 'αβ', '日本', 'grüß',
                  'ångström', 'Жук', 'pâté', 'été', 'øre', 'ça', 'łódź'],
+    # AFM WORD tokens that are case variants of the AFM grammar's keywords and function names
+    'afmkw': ['Max', 'Min', 'Sum', 'To', 'Not', 'And', 'Or', 'Iff', 'Implies', 'Requires', 'Excludes', 'Abs', 'Cos', 'Sin', 'Mod',
+              'Pow', 'In', 'Real'],
     # AFM WORD tokens equal up to letter case
     'afmcase': ['Abc', 'ABC', 'AbC', 'ABc', 'Xyz', 'XYZ', 'XyZ', 'XYz', 'Pq', 'PQ', 'Mno', 'MNO', 'MnO', 'MNo'],
     'afmword': ['Alpha', 'Beta2', 'Gamma', 'DeltaX', 'Eps', 'Zeta9', 'Eta', 'Theta1', 'Iota',
@@ -58,6 +61,10 @@ POOLS = {
     # never starting with an apostrophe: the library's AST reads such a leaf as a string literal
     'apos': ["it's", "q'q'", "o'k", "x'", "d'", "a'b'c"],
 }
+
+
+# constraint names: in every naming but the base one, creation order is NOT lexicographic order
+CTC_POOL = ['zz last', 'mm mid', 'Zeta', 'aa first', 'c10', 'c2', 'Alpha', 'b', 'a', 'Constraint 10', 'Constraint 2', '0']
 
 
 def ascii_escape(s):
@@ -92,7 +99,7 @@ class Naming:
         n = 0
         while True:  # pool exhausted: derive a fresh one
             cand = pool[idx % len(pool)] + ('_%d' % n if cls in ('plain', 'afmword') else ' %d' % n)
-            if cls in ('afmword', 'afmcase'):
+            if cls in ('afmword', 'afmcase', 'afmkw'):
                 cand = pool[idx % len(pool)] + 'X%d' % n
             if cand not in self._used:
                 return cand
@@ -117,6 +124,21 @@ class Naming:
         self.fwd[a] = c
         self.rev[c] = a
         return c
+
+    def conc_ctc(self, a):
+        """abstract constraint name (c1, c2, i1, ...) -> concrete; literal under the base naming"""
+        if self.k == 0 or not (a[:1] in 'ci' and a[1:].isdigit()):
+            return a
+        key = 'ctc:' + a
+        if key not in self.fwd:
+            c = CTC_POOL[(int(a[1:]) - 1 + (6 if a[0] == 'i' else 0)) % len(CTC_POOL)]
+            self.fwd[key] = c
+            self.rev['ctc:' + c] = a
+        return self.fwd[key]
+
+    def abs_ctc(self, c):
+        """concrete constraint name -> abstract (names the library derives itself stay as they are)"""
+        return self.rev.get('ctc:' + c, ascii_escape(c)) if isinstance(c, str) else '?n:<%s>' % type(c).__name__
 
     def abs(self, c):
         """concrete -> abstract; unknown strings become '?n:' tokens."""
